@@ -56,13 +56,13 @@ def timeOK (rfc3339 : String → Option Int) (doc : JIn) (obs : Out Int) : Bool 
   match obs with
   | .panic => false
   | .err => match doc with
-    | .atom (.int n) => !(int64Min ≤ n ∧ n ≤ int64Max)
+    | .atom (.int n) => !(int64Min ≤ n ∧ n ≤ timeMax)
     | .atom (.float _ ok) => !ok
     | .atom (.str s) => (rfc3339 s).isNone
     | .atom .null => false
     | _ => true
   | .val v => match doc with
-    | .atom (.int n) => v == n
+    | .atom (.int n) => decide (int64Min ≤ n ∧ n ≤ timeMax) && v == n
     | .atom (.float t ok) => ok && v == t
     | .atom (.str s) => rfc3339 s == some v
     | .atom .null => v == 0
@@ -167,21 +167,24 @@ def audienceOKJ (doc : JVal) (obs : Out (List String)) : Bool :=
     | .arr l => !allStr l
     | _ => true
 
-def F64.inInt64 (x : F64) : Bool := !x.nan && decide (int64Min ≤ x.floor) && decide (x.floor ≤ int64Max)
+/-- the numbers `oidc.Time` stands for: whole seconds (toward zero) an int64 holds AND whose instant `time.Unix` computes
+    without wrap-around (`timeMax`); every other number must be REFUSED - a decoded value in the wrap zone would be judged as
+    an instant the document did not contain (finding F-C01a, fixed) -/
+def F64.inTime (x : F64) : Bool := !x.nan && decide (int64Min ≤ x.floor) && decide (x.floor ≤ timeMax)
 
-/-- `Time`: a number inside the int64 range is truncated toward zero, an RFC 3339 string (`tp` = time.Parse, ns) is that
+/-- `Time`: a number inside the range of instants is truncated toward zero, an RFC 3339 string (`tp` = time.Parse, ns) is that
     instant in seconds (the zero time is 0), `null` is 0; anything else is an error or 0 -/
 def timeOKJ (tp : String → Go.R Int) (doc : JVal) (obs : Out Int) : Bool :=
   match obs with
   | .panic => false
   | .val v =>
     match doc with
-    | .num x => F64.inInt64 x && v == x.toInt64
+    | .num x => F64.inTime x && v == x.toInt64
     | .str s => match tp s with | .ok t => v == Go.fromTime t | .error _ => v == 0
     | _ => v == 0
   | .err =>
     match doc with
-    | .num x => !F64.inInt64 x
+    | .num x => !F64.inTime x
     | .str s => match tp s with | .ok _ => false | .error _ => true
     | .null => false
     | _ => true
